@@ -91,6 +91,10 @@ def expr_text(e) -> str:
     if k == "did":
         return "." + e[1]
     if k == "dot":
+        # `5.b` lexes as the float `5.` followed by `b` (no parse): a literal receiver is parenthesised (same tree shape
+        # for the model: a selection on an int, which is an evaluation error)
+        if e[1][0] == "lit" and e[1][1] >= 0:
+            return f"({expr_text(e[1])}).{e[2]}"
         return f"{expr_text(e[1])}.{e[2]}"
     if k == "add":
         return f"({expr_text(e[1])} + {expr_text(e[2])})"
